@@ -248,8 +248,9 @@ pub(crate) fn bit_string_to_string(
                     let first_elements = &extended_value[..pivot];
                     let last_elements = &extended_value[pivot..];
                     // This char is allowed and may be truncated from the vector
+                    // (with a length of zero no element remains to compare with)
                     let allowed_char = if bit_string.base.is_signed() {
-                        last_elements[0]
+                        last_elements.first().copied().unwrap_or(b'0')
                     } else {
                         b'0'
                     };
@@ -260,7 +261,7 @@ pub(crate) fn bit_string_to_string(
                         .position(|el| *el != allowed_char);
                     match idx {
                         Some(value) => {
-                            let real_idx = last_elements.len() + value - 1;
+                            let real_idx = (last_elements.len() + value).saturating_sub(1);
                             let erroneous_string = Latin1String::from_vec(extended_value);
                             Err(BitStringConversionError::IllegalTruncate(
                                 real_idx,
